@@ -1,0 +1,105 @@
+//go:build verif
+
+// Contracts for the govc deductive verifier (see /verif/DESIGN.md). Compiled only under the build
+// tag "verif"; adds no behaviour to the package. Spec functions are written from SEMI E4 §7-§8.
+package secs1
+
+import "unsafe"
+
+// --- clause-language prelude (symbolic for the verifier, executable for replay tests) ---
+
+func zzOld[T any](x T) T   { return x }
+func zzImp(a, b bool) bool { return !a || b }
+
+type zzInt interface {
+	~int | ~int8 | ~int16 | ~int32 | ~int64 | ~uint | ~uint8 | ~uint16 | ~uint32 | ~uint64
+}
+
+func zzForall[T zzInt](f func(T) bool) bool {
+	for j := -2; j < 70000; j++ {
+		if T(j) < 0 != (j < 0) {
+			continue
+		}
+		if !f(T(j)) {
+			return false
+		}
+	}
+	return true
+}
+func zzResult[T any](i int) (zero T) { panic("spec only") }
+func zzIter() int                    { panic("spec only") }
+func zzFresh(x any) bool             { return true }
+func zzSameSlice[T any](a, b []T) bool {
+	return len(a) == len(b) && (len(a) == 0 || unsafe.SliceData(a) == unsafe.SliceData(b))
+}
+
+// --- C17: SEMI E4 §8 block header (DESIGN.md Appendix F.5) ---
+
+// specBlockHeader lays the ten header bytes out in their E4 positions.
+func specBlockHeader(dev uint16, r bool, stream uint8, w bool, fn uint8, blockNo uint16, e bool, sys [4]byte) [10]byte {
+	b0 := byte(dev >> 8)
+	if r {
+		b0 |= 0x80
+	}
+	b2 := stream & 0x7F
+	if w {
+		b2 |= 0x80
+	}
+	b4 := byte(blockNo >> 8)
+	if e {
+		b4 |= 0x80
+	}
+	return [10]byte{b0, byte(dev), b2, fn, b4, byte(blockNo), sys[0], sys[1], sys[2], sys[3]}
+}
+
+//@ func buildHeader
+//@ ensures [map] result == specBlockHeader(h.deviceID, h.rBit, h.stream, h.waitBit, h.function, blockNumber, last, h.systemBytes)
+
+//@ func (block).deviceID
+//@ ensures [bits] result == (uint16(b.header[0])<<8|uint16(b.header[1]))&0x7FFF
+
+//@ func (block).rBit
+//@ ensures [bit] result == (b.header[0]&0x80 != 0)
+
+//@ func (block).stream
+//@ ensures [bits] result == b.header[2]&0x7F
+
+//@ func (block).waitBit
+//@ ensures [bit] result == (b.header[2]&0x80 != 0)
+
+//@ func (block).function
+//@ ensures [byte] result == b.header[3]
+
+//@ func (block).blockNumber
+//@ ensures [bits] result == (uint16(b.header[4])<<8|uint16(b.header[5]))&0x7FFF
+
+//@ func (block).eBit
+//@ ensures [bit] result == (b.header[4]&0x80 != 0)
+
+//@ func (block).systemBytes
+//@ ensures [copy] result == [4]byte{b.header[6], b.header[7], b.header[8], b.header[9]}
+
+// lemmaHeaderRoundTrip: for every representable header (15-bit device id and block number, 7-bit stream) the
+// accessors read back exactly what buildHeader packed — over the contracts above only.
+//
+//@ func lemmaHeaderRoundTrip
+//@ requires h.deviceID <= 0x7FFF && h.stream <= 0x7F && blockNumber <= 0x7FFF
+//@ ensures [dev]  result0 == h
+//@ ensures [num]  result1 == blockNumber && result2 == last
+
+func lemmaHeaderRoundTrip(h messageHeader, blockNumber uint16, last bool) (messageHeader, uint16, bool) {
+	b := block{header: buildHeader(h, blockNumber, last)}
+	return b.messageHeader(), b.blockNumber(), b.eBit()
+}
+
+//@ func (block).messageHeader
+//@ ensures [fields] result.deviceID == (uint16(b.header[0])<<8|uint16(b.header[1]))&0x7FFF && result.rBit == (b.header[0]&0x80 != 0) &&
+//@                  result.stream == b.header[2]&0x7F && result.waitBit == (b.header[2]&0x80 != 0) && result.function == b.header[3] &&
+//@                  result.systemBytes == [4]byte{b.header[6], b.header[7], b.header[8], b.header[9]}
+
+// --- wire form of a block: [10+len(body)] [header] [body] [checksum hi] [checksum lo] ---
+
+//@ func parseBlock
+//@ ensures [len]   (lengthByte < 10 || lengthByte > 254) ==> result1 != nil
+//@ ensures [agree] len(rest) != int(lengthByte)+2 ==> result1 != nil
+//@ ensures [hdr]   result1 == nil ==> forall j :: 0 <= j && j < 10 ==> result0.header[j] == rest[j]
